@@ -2,6 +2,8 @@ package main
 
 import (
 	"strings"
+
+	"golang.org/x/tools/go/ssa"
 )
 
 // Binds holds pattern variables.
@@ -194,5 +196,30 @@ func CallLike(frags []string, args ...P) P {
 			}
 		}
 		return true
+	}
+}
+
+// FieldT matches a field read/address by the TYPE of the field (a fragment of
+// its printed type) instead of its name — for unexported fields whose name a
+// refactoring may change.
+func FieldT(typeFrag string, base P) P {
+	return func(x *X, b Binds) bool {
+		x = strip(x)
+		if x == nil || x.Op != "field" || len(x.Args) != 1 {
+			return false
+		}
+		t := ""
+		switch v := x.V.(type) {
+		case *ssa.FieldAddr:
+			t = deref(v.Type()).String()
+		case *ssa.Field:
+			t = v.Type().String()
+		case *ssa.UnOp:
+			t = v.Type().String()
+		}
+		if !strings.Contains(t, typeFrag) {
+			return false
+		}
+		return base(x.Args[0], b)
 	}
 }
